@@ -586,6 +586,45 @@ impl std::io::Read for Trickle<'_> {
         Ok(n)
     }
 }
+/// A legal `Write` target with limited room: accepts `cap` bytes in total, then reports an error
+/// (mode 0), reports that nothing more can be written (mode 1, Ok(0)), or, in mode 2, first
+/// accepts short writes and then fails. `got` is everything the target really received.
+pub struct LimitSink {
+    pub cap: usize,
+    pub mode: u8,
+    pub got: Vec<u8>,
+    pub flushed: usize,
+}
+impl LimitSink {
+    pub fn new(cap: usize, mode: u8) -> Self {
+        LimitSink { cap, mode, got: Vec::new(), flushed: 0 }
+    }
+}
+impl std::io::Write for LimitSink {
+    fn write(&mut self, buf: &[u8]) -> std::io::Result<usize> {
+        let room = self.cap - self.got.len();
+        if buf.is_empty() {
+            return Ok(0);
+        }
+        if room == 0 {
+            return match self.mode % 3 {
+                1 => Ok(0),
+                _ => Err(std::io::Error::new(std::io::ErrorKind::Other, "sink is full")),
+            };
+        }
+        let mut n = buf.len().min(room);
+        if self.mode % 3 == 2 {
+            n = n.min(1 + self.got.len() % 613);
+        }
+        self.got.extend_from_slice(&buf[..n]);
+        Ok(n)
+    }
+    fn flush(&mut self) -> std::io::Result<()> {
+        self.flushed += 1;
+        Ok(())
+    }
+}
+
 impl BlobSpec {
     pub fn bytes(&self) -> Vec<u8> {
         if self.xmlish {
